@@ -95,6 +95,11 @@ def gen(r) -> Dict[str, Any]:
                 sub["schedule"] = [{"on": n, "job": {"dt": r.choice([-7.0, -1.0, 0.0, 0.5, 3.0]), "steps": r.choice([0, 1]),
                                                      "fail": r.random() < 0.1, "schedule": []}}
                                    for n in range(6) if r.random() < 0.3]
+    if r.random() < 0.1:
+        # some handlers stay suspended for seconds (of virtual time): a pass lasts until the slowest one is done
+        for sub in subs:
+            if sub.get("steps") and r.random() < 0.5:
+                sub["sleep"] = r.choice([0.5, 3.0, 7.0, 12.0])
     return {"max_concurrent": mc, "sources": sources, "derived": nder, "subscriptions": subs, "jobs": [],
             "stop_on_handler_exceptions": False, "tz_minutes": r.choice([[0], [0], [0, -300, 330], [540, -480, 60]])}
 
